@@ -17,8 +17,30 @@ RULE = (
 EXPLANATION = ("Main theorem simplify_normal_form (Props/C14Normal.lean, from simp_nf: induction over the fuel and every clause of the visitor and of call_Select / call_SelectMany / call_Where, on top of the well-formedness invariant of C18): whatever the visitor model returns for a well-formed query is a normal form (nf, Model/WfQuery.lean) - no constant projection is left sitting on a tuple / list literal (non-negative index), on a dictionary literal that defines the key (subscript or attribute) or on a First(...); no Select / SelectMany / Where call is left on a source it fuses with. So wherever a later stage's projection meets the literal an earlier stage built neither survives, and stages never stay separate - for every chain, nesting and choice of binder names. Typing argument, now formal (Props/C14Shape.lean): typed_nf_packed / typed_normal_form_constructions - a query that obeys the pack-chain discipline (shapeOf, Model/Shape.lean: packs are built by literals only and taken apart by constant selectors only; operators, calls and attributes of objects handle pack-free values; the source of a stage is another stage or pack-free) and is in normal form holds tuple / list / dictionary constructions in RESULT position only (resOK), and none at all when its shape is pack-free (noLit): a projection with a pack-shaped base would have a literal base (a redex) or a First base (pushed inside), both excluded by nf, and the source of a stage in normal form is pack-free (stage_src_opq). With simplify_normal_form: simplify_pack_chain_eliminated. What stays unproved is subject reduction (that the OUTPUT of a pack chain obeys the discipline); it is evaluated on the real simplifier's output for every generated pack chain (driver op shape; distribution 'shape of the real output'), and where it holds the conclusion is demanded of the real output. PARTIAL (superseded by the above where the output obeys the discipline): that in a pack chain every projection does meet its literal (so that no construction remains at all) is a typing argument that is not formalised; it is checked per run by the node-kind oracle. The conclusion of the theorem is evaluated on the output of the REAL simplifier for every generated well-formed query (driver op nf). One-step rules: proj_of_tuple, proj_of_list, proj_of_dict_key, proj_of_dict_attr, name_substituted. Correspondence: as C02, on generated pack chains. Oracle: node kinds of the real output: no Tuple/List/Dict node and no constant projection may remain unless it is part of the final stage's result.")
 
 
+def deep_nest(rng, levels: int) -> str:
+    """`levels` pack / unpack stage pairs nested inside each other: the consumer's lambda holds the next pair, which works
+    on one packaged field and mentions the other (seed C14-w6-2: a depth limit on the inlining of called lambdas)"""
+    def pack(k, a, b):
+        kind = rng.choice(["tup", "tup", "list", "dict"])
+        if kind == "tup":
+            return f"({a}, {b})", f"p{k}[0]", f"p{k}[1]"
+        if kind == "list":
+            return f"[{a}, {b}]", f"p{k}[0]", f"p{k}[1]"
+        return f"{{'o': {a}, 'c': {b}}}", rng.choice([f"p{k}.o", f"p{k}['o']"]), rng.choice([f"p{k}.c", f"p{k}['c']"])
+
+    def nest(k, src, acc):
+        lit, fst, snd = pack(k, f"x{k}", acc)
+        body = nest(k - 1, fst, f"{snd} + {fst}.run") if k > 1 else f"{fst}.run + {snd}"
+        return f"Select(Select({src}.jets, lambda x{k}: {lit}), lambda p{k}: {body})"
+
+    return f"Select(ds, lambda e: {nest(levels, 'e', 'e.met')})"
+
+
 def run(ctx):
     n = ctx.n(700, 30000)
+    deep = [deep_nest(ctx.rng, ctx.rng.choice([6, 9, 13, 17, 18, 21, 26, 33])) for _ in range(ctx.n(6, 60))]
+    ctx.dist["deeply nested pack/unpack pairs (6-33 levels)"] += len(deep)
+    simplify.check_queries(ctx, deep, "c14-deep", pack_check=simplify.pack_check_factory(False))
     for _ in range(0, n, 100):
         for final in (False, True):
             srcs = []
